@@ -355,6 +355,13 @@ func GoBytes(x any) []byte {
 		}
 		return nil
 	}
+	if ArenaOn {
+		out := arenaTake(&byteArena, len(l))
+		for i, b := range l {
+			out[i] = byte(I(b))
+		}
+		return out
+	}
 	full := make([]byte, len(l)+8)
 	for i := range full {
 		full[i] = SpareFill
@@ -369,8 +376,18 @@ func GoBytes(x any) []byte {
 	return out
 }
 
+// plainBytes converts without spare capacity, sentinels or the arena (temporaries of fixed-width numbers).
+func plainBytes(x any) []byte {
+	l := List(x)
+	out := make([]byte, len(l))
+	for i, b := range l {
+		out[i] = byte(I(b))
+	}
+	return out
+}
+
 func GoU32(x any) uint32 {
-	b := GoBytes(x)
+	b := plainBytes(x)
 	if len(b) != 4 {
 		panic(fmt.Sprintf("abs: u32 needs 4 octets, got %v", x))
 	}
@@ -378,7 +395,7 @@ func GoU32(x any) uint32 {
 }
 
 func GoU64(x any) uint64 {
-	b := GoBytes(x)
+	b := plainBytes(x)
 	if len(b) != 8 {
 		panic(fmt.Sprintf("abs: u64 needs 8 octets, got %v", x))
 	}
@@ -395,10 +412,41 @@ func GoU32s(x any) []uint32 {
 		return nil
 	}
 	out := make([]uint32, len(l))
+	if ArenaOn {
+		out = arenaTake(&u32Arena, len(l))
+	}
 	for i, e := range l {
 		out[i] = GoU32(e)
 	}
 	return out
+}
+
+// Arena mode: the variable-length fields of one built value (a packet, or all packets of a list) are
+// consecutive windows of one backing array, each with the rest of the array as its spare capacity - the
+// layout of an application that cuts its fields out of one buffer. A library call that appends to a field
+// it was given then writes into the next field, or the next packet. ArenaOn is set per built value by the
+// caller (exec.BuildAny) as a function of the value.
+var ArenaOn bool
+var byteArena []byte
+var u32Arena []uint32
+var metricArena []rtcp.CCFeedbackMetricBlock
+
+// ArenaReset starts a new set of backing arrays.
+func ArenaReset() {
+	byteArena, u32Arena, metricArena = nil, nil, nil
+}
+
+func arenaTake[T any](a *[]T, n int) []T {
+	if cap(*a)-len(*a) < n {
+		size := 1 << 12
+		if n > size {
+			size = n
+		}
+		*a = make([]T, 0, size)
+	}
+	start := len(*a)
+	*a = (*a)[:start+n]
+	return (*a)[start : start+n]
 }
 
 func rec(x any) V {
@@ -616,6 +664,9 @@ func build(m V) rtcp.Packet {
 		for _, b := range List(m["blocks"]) {
 			bm := rec(b)
 			var ms []rtcp.CCFeedbackMetricBlock
+			if ArenaOn && len(List(bm["mbs"])) > 0 {
+				ms = arenaTake(&metricArena, len(List(bm["mbs"])))[:0]
+			}
 			for _, mb := range List(bm["mbs"]) {
 				mm := rec(mb)
 				ms = append(ms, rtcp.CCFeedbackMetricBlock{Received: B(mm["r"]), ECN: rtcp.ECN(I(mm["ecn"])), ArrivalTimeOffset: uint16(I(mm["ato"]))})
@@ -647,8 +698,23 @@ func build(m V) rtcp.Packet {
 
 func BuildList(x any) []rtcp.Packet {
 	var out []rtcp.Packet
+	// a member equal to an earlier one is the same object listed again (a caller that sends one report
+	// twice does not copy it)
+	seen := map[string]rtcp.Packet{}
 	for _, p := range List(x) {
-		out = append(out, Build(p))
+		key := ""
+		if js, err := json.Marshal(p); err == nil && len(js) < 4096 {
+			key = string(js)
+			if q, ok := seen[key]; ok {
+				out = append(out, q)
+				continue
+			}
+		}
+		q := Build(p)
+		if key != "" {
+			seen[key] = q
+		}
+		out = append(out, q)
 	}
 	return out
 }
